@@ -30,3 +30,108 @@ def kw_meek(kf: 'val', weight: 'val') -> 'tuple:val,val':
     ensures(keep + rest <= weight, name='a ballot never hands out more than it holds')
     ensures(rest <= weight)
     modifies()
+
+
+# --------------------------------------------------------------------------------------------- Meek / Warren count()
+MeekRule = cls('droop.rules.meek.Rule')
+FREE_EC = {'E': 'Election', 'C': 'Candidates'}
+
+
+@contract('droop.rules.meek.Rule.count.<locals>.countComplete', props=['C01'], free=FREE_EC)
+def meek_count_complete() -> 'bool':
+    "the count is over when the hopefuls no longer outnumber the open seats, or no seat is open"
+    requires(same_ref(C, E.C))
+    requires(is_the_election(E))
+    left = E.electionProfile.nSeats - ghost('nE')
+    ensures(result == or_(ghost('nH') <= left, left <= 0))
+    modifies()
+
+
+@contract('droop.rules.meek.Rule.count.<locals>.calcQuota', props=['C04'], free={'E': 'Election'},
+          instances=['scaled', 'guarded', 'real'])
+def calc_quota_meek() -> 'val':
+    """votes/(seats+1) exactly under exact arithmetic; that quotient truncated (plus one unit in the last place under
+    fixed-point arithmetic) otherwise; the votes are the current total of the continuing candidates' tallies"""
+    s = E.electionProfile.nSeats
+    requires(s >= 1)
+    if instance_is('real'):
+        ensures(result * V_of_int(s + 1) == E.votes)
+    else:
+        if instance_is('guarded'):
+            ensures(floor_of(units(result), units(E.votes), s + 1))
+        else:
+            ensures(floor_of(units(result) - 1, units(E.votes), s + 1))
+    modifies()
+
+
+@contract('droop.rules.meek.Rule.count.<locals>.batchDefeat', props=['C07', 'C01'], free=FREE_EC,
+          trusted='grouped prefix scan over a sorted list built with list.append (lists of lists): outside the verified subset; '
+                  'its postcondition is checked by the bounded stand-in (C07 sure-loser monitor)')
+def meek_batch_defeat(surplus: 'val') -> 'abs:Candidate':
+    "sure losers: all hopeful, and enough hopefuls remain to fill the seats"
+    ensures(forall(result, lambda c: and_(in_election(c), c.state == 'hopeful')))
+    ensures(length(result) >= 0)
+    ensures(length(result) <= ghost('nH') - (E.electionProfile.nSeats - ghost('nE')), name='enough candidates remain')
+    modifies()
+
+
+@contract('droop.rules.meek.Rule.count.<locals>.distributeVotes', props=['C08', 'C01'], free=FREE_EC,
+          trusted='the Meek/Warren distribution sweep (nested loops over rankings with early exit and the recursive split of equal '
+                  'rankings): outside the verified subset; its invariants M1-M3 are checked by the bounded stand-in of C08. '
+                  'Frame by SCAN: it assigns tallies, ballot weights/residuals and E.residual only, never a status')
+def meek_distribute():
+    ensures(forall('ref:droop.candidate.Candidate',
+                   lambda c: implies(and_(in_election(c), c.state == 'elected'), c.vote > E.V0)),
+            name='(assumed, M-invariant) an elected candidate keeps a positive tally')
+    modifies_all(Candidate, 'vote')
+    modifies_all(Ballot, 'weight', 'residual')
+    modifies(E, 'residual')
+
+
+@contract('droop.rules.meek.Rule.count', props=['C01', 'C09'], site_props=['C04', 'C07'], instances=['scaled', 'guarded'])
+def meek_count(self: 'MeekRule'):
+    """Meek / Warren: every status change goes through elect/defeat of a hopeful candidate, the count ends with nobody
+    hopeful and the seats filled; termination of the rounds (variant nH) and of each iteration under fixed-point or guarded
+    arithmetic (the total surplus strictly decreases).  Exact rational arithmetic: termination of iterate() not decided."""
+    E = self.E
+    requires(count_entry(E))
+    requires(and_(any_is_int(self.omega10), any_int_value(self.omega10) >= 0), name='omega is a non-negative integer (options())')
+    requires(E.V.name != 'integer', name="Meek needs fractional arithmetic: 'integer' (fixed with precision 0) is rejected by the rule's own assertion")
+    ensures(ghost('nH') == 0, name='every candidate is decided: nobody is left hopeful')
+    ensures(ghost('nP') == 0, name='no transfer is left pending')
+    ensures(ghost('nW') == old(ghost('nW')), name='withdrawn candidates never change')
+    ensures(ghost('nE') >= E.electionProfile.nSeats, name='the seats are filled')
+    modifies_all(Candidate, 'state', 'pending', 'vote', 'kf')
+    modifies_all(Ballot, 'weight', 'residual')
+    modifies(E, 'quota', 'votes', 'round', 'surplus', 'residual')
+    modifies(self, 'omega', 'omega10')
+    modifies_ghost('nH', 'nE', 'nD', 'nP', 'nlog', 'lasttag', 'lastmsg')
+
+
+@loops('droop.rules.meek.Rule.count', anchor='while#1')
+def meek_main_loop(self):
+    E = self.E
+    invariant(ghost('nH') + ghost('nE') >= E.electionProfile.nSeats)
+    invariant(ghost('nP') == 0)
+    invariant(E.round >= 0)
+    invariant(forall('ref:droop.candidate.Candidate',
+                     lambda c: implies(and_(in_election(c), or_(c.state == 'hopeful', c.state == 'elected')), not_(is_none(c.kf)))))
+    variant(ghost('nH'))
+
+
+@loops('droop.rules.meek.Rule.count.<locals>.iterate', anchor='while#1')
+def meek_iterate_loop():
+    invariant(ghost('nP') == 0)
+    invariant(iStatus == 'none')
+    invariant(ghost('nH') == old(ghost('nH')))
+    invariant(ghost('nE') == old(ghost('nE')))
+    invariant(forall('ref:droop.candidate.Candidate',
+                     lambda c: implies(and_(in_election(c), or_(c.state == 'hopeful', c.state == 'elected')), not_(is_none(c.kf)))))
+    variant(units(lastsurplus))
+
+
+@loops('droop.rules.meek.Rule.count.<locals>.iterate', anchor='for#1')
+def meek_iterate_elect_loop():
+    invariant(implies(iStatus == 'elected', it >= 1))
+    invariant(implies(it >= 1, iStatus == 'elected'))
+    invariant(or_(iStatus == 'elected', iStatus == 'none'))
